@@ -259,6 +259,12 @@ fn runs_case(c: &mut Case, k: usize, maxlen: usize, bits: u32) -> (Vec<Vec<u64>>
 }
 
 // ---- ReplaceSelectSort -------------------------------------------------------------------------------
+const POISON: u64 = u64::MAX;
+/// element whose serialisation fails for one value: an in-contract way to make sort() fail after some runs were written
+#[derive(Clone, Debug, PartialEq, Eq, PartialOrd, Ord)]
+struct Poisonable(u64);
+impl serde::Serialize for Poisonable { fn serialize<S: serde::Serializer>(&self, s: S) -> Result<S::Ok, S::Error> { if self.0 == POISON { Err(serde::ser::Error::custom("value cannot be serialised")) } else { s.serialize_u64(self.0) } } }
+impl<'de> serde::Deserialize<'de> for Poisonable { fn deserialize<D: serde::Deserializer<'de>>(d: D) -> Result<Self, D::Error> { <u64 as serde::Deserialize>::deserialize(d).map(Poisonable) } }
 fn tmpdir() -> std::io::Result<tempfile::TempDir> { if std::path::Path::new("/dev/shm").is_dir() { tempfile::tempdir_in("/dev/shm") } else { tempfile::tempdir() } }
 fn ext_cfg(c: &mut Case, dir: &std::path::Path, esz: usize, elems: usize) -> ReplaceSelectSortConfig {
     ReplaceSelectSortConfig { memory_buffer_size: elems * esz + c.rng.usize_below(esz), temp_dir: dir.to_path_buf(), use_secure_memory: c.rng.chance(1, 4), compress_temp_files: c.rng.bool(),
@@ -334,6 +340,18 @@ fn run_extsort(ctx: &mut Ctx) {
             let n = 1 + pick_n(c, &[2], 100); let f = c.rng.below(NFAM as u64) as u32; let data = ints(c, f, n, 64); c.input_str("buf", &cfg.memory_buffer_size.to_string()); c.input("data", &le64(&data)); c.set_nontrivial(n >= 2);
             c.tag("memory_budget_lt_one_element");
             let out = lib!("ReplaceSelectSort::sort", ReplaceSelectSort::<u64>::new(cfg).sort(data.clone())); check_perm(c, "ReplaceSelectSort::sort", &data, &out) });
+        // a sort() that fails part-way (an element that cannot be written to a run file) must not leak into later sort()
+        // calls on the same object: each call returns a sorted permutation of exactly its own input
+        ctx.case("extsort/reuse_after_err", "poisoned_then_clean", idx, |c| {
+            let dir = tmpdir().map_err(|e| bad("__inconclusive", format!("tempdir: {e}")))?; let el = ext_elems(c).min(64); let mut cfg = ext_cfg(c, dir.path(), 8, el); cfg.cleanup_temp_files = !c.rng.chance(1, 4);
+            let n = 2 + pick_n(c, &[el, 2 * el, 8 * el], 200); let f = c.rng.below(NFAM as u64) as u32; let mut d1: Vec<Poisonable> = ints(c, f, n, 63).into_iter().map(|x| Poisonable(x >> 1)).collect();
+            let at = match c.rng.below(3) { 0 => n - 1, 1 => n / 2, _ => c.rng.usize_below(n) }; d1[at] = Poisonable(POISON);
+            c.input_str("cfg", &format!("buf={} merge_ways={} cleanup={} poison_at={at}/{n}", cfg.memory_buffer_size, cfg.merge_ways, cfg.cleanup_temp_files)); c.set_nontrivial(true);
+            let mut s = ReplaceSelectSort::<Poisonable>::new(cfg);
+            match nopanic("ReplaceSelectSort::sort(poisoned)", || s.sort(d1.clone()))? { Err(_) => c.note("first_sort_err", 1), Ok(o) => { c.note("first_sort_ok", 1); check_perm(c, "sort of the input holding the unwritable element (never spilled)", &d1, &o)?; } }
+            for round in 0..2 { let m = 1 + c.rng.usize_below(2 * n); let f2 = c.rng.below(NFAM as u64) as u32; let d: Vec<Poisonable> = ints(c, f2, m, 63).into_iter().map(|x| Poisonable(x >> 1)).collect();
+                let o = lib!("ReplaceSelectSort::sort(after a failed sort)", s.sort(d.clone())); check_perm(c, &format!("sort #{} on the sorter whose first sort hit an unwritable element", round + 2), &d, &o)?; }
+            Ok(()) });
         ctx.case("extsort/reuse_nocleanup", "two_sorts", idx, |c| {
             let dir = tmpdir().map_err(|e| bad("__inconclusive", format!("tempdir: {e}")))?; let el = ext_elems(c); let mut cfg = ext_cfg(c, dir.path(), 8, el); cfg.cleanup_temp_files = false;
             let n = 1 + pick_n(c, &[el], 120); let f = c.rng.below(NFAM as u64) as u32; let d1 = ints(c, f, n, 64); let d2 = ints(c, f, 1 + n / 2, 64); c.input("data1", &le64(&d1)); c.input("data2", &le64(&d2)); c.set_nontrivial(n >= 2);
